@@ -90,8 +90,8 @@ def model_stage(ctx):
     """Step 1 of DESIGN 4.4: the corrected design satisfies C17; each open deviation and each model
     mutation breaks it."""
     if ctx.thorough:
-        safety = [("CfgFifo2", "Shapes3", 3), ("CfgFifo3", "Shapes2", 1), ("CfgSock2", "Shapes3", 2),
-                  ("CfgSock3N", "Shapes2", 1), ("CfgDgram2", "ShapesDgram", 2)]
+        safety = [("CfgSock2", "Shapes3", 2), ("CfgSock3N", "Shapes2", 1), ("CfgFifo2", "Shapes2", 3), ("CfgFifo2", "Shapes3", 2),
+                  ("CfgDgram2", "ShapesDgram", 2), ("CfgFifo3", "Shapes2", 1), ("CfgSock1", "Shapes3", 3)]
         live = [("CfgAll1", "Shapes3", 3), ("CfgFifo2", "Shapes2", 1), ("CfgSock2", "Shapes2", 1),
                 ("CfgDgram2", "Shapes2", 1)]
     else:
